@@ -31,9 +31,11 @@ From V.lib Require Import Prelude Wire.
 From V.model Require Import PackUri.
 From V.model Require Ids Opc.
 From Coq Require Strings.String Strings.Ascii.
+Import Coq.Strings.String.StringSyntax.
 
 Definition asc (s : String.string) : str :=
   map Ascii.N_of_ascii (String.list_ascii_of_string s).
+Arguments asc s%string_scope.
 
 (* ------------------------------------------------------------------------------ *)
 (** * Constants of opc/constants.py and the fixed part names (checked against the live
@@ -65,6 +67,8 @@ Definition ct_docx : str := Eval vm_compute in asc "application/vnd.openxmlforma
 Definition ct_pptx : str := Eval vm_compute in asc "application/vnd.openxmlformats-officedocument.presentationml.presentation".
 Definition ct_ole : str := Eval vm_compute in asc "application/vnd.openxmlformats-officedocument.oleObject".
 Definition ct_core : str := Eval vm_compute in asc "application/vnd.openxmlformats-package.core-properties+xml".
+Definition ct_slide_master : str := Eval vm_compute in asc "application/vnd.openxmlformats-officedocument.presentationml.slideMaster+xml".
+Definition ct_slide_layout : str := Eval vm_compute in asc "application/vnd.openxmlformats-officedocument.presentationml.slideLayout+xml".
 Definition ct_png : str := Eval vm_compute in asc "image/png".
 Definition ct_emf : str := Eval vm_compute in asc "image/x-emf".
 
@@ -93,8 +97,12 @@ Definition e_emf : str := Eval vm_compute in asc "emf".
 
 Inductive tgt := TInt (p : nat) | TExt (u : str).
 
-(** One _Relationship object.  [rr_ref] is the value the lazyproperty target_ref holds
-    once it has been evaluated for an internal relationship (None: not yet evaluated). *)
+(** One _Relationship object.  target_ref and target_partname are ordinary properties since
+    the repair 5eaa1dfb (computed from the current name of the target part on every access).
+    [rr_ref] models what they were before: lazyproperties, holding the value of their first
+    evaluation for ever (None: not evaluated).  The operations take a flag [lz]: false is the
+    code as it is now and never writes [rr_ref]; true is the former code, kept for the
+    regression witness of the defect. *)
 Record relr := mkR { rr_id : str; rr_type : str; rr_tgt : tgt; rr_ref : option str }.
 
 Definition rr_ext (r : relr) : bool := match rr_tgt r with TExt _ => true | TInt _ => false end.
@@ -389,6 +397,11 @@ Definition m_relate (src : nat) (t : str) (g : tgt) : M str :=
 Definition m_add_ref (p : nat) (kr : str * str) : M unit :=
   do x <- m_part p ;; m_setp p (with_refs x (pt_refs x ++ [kr])).
 
+(** the python class of a part object is fixed by its content type (PartFactory); reaching for
+    an attribute only another part class has raises AttributeError *)
+Definition m_class (p : nat) (ct : str) : M unit :=
+  do x <- m_part p ;; if str_eqb (pt_ct x) ct then ret tt else fail OtherErr.
+
 (** ** Presentation.slides *)
 
 (** the rIds of the id list that related_part resolves, up to the first one it does not *)
@@ -442,7 +455,7 @@ Definition m_slide (i : nat) : M nat :=
   do pp <- m_part (st_pres s) ;;
   match nth_error (pt_idl pp) i with
   | None => fail IndexErr
-  | Some rid => lift (related_part rid (pt_rels pp))
+  | Some rid => do sp <- lift (related_part rid (pt_rels pp)) ;; do _ <- m_class sp ct_slide ;; ret sp
   end.
 
 (** prs.slide_layouts at l: first slide master, its id list, related_part.
@@ -454,10 +467,12 @@ Definition m_layout (l : nat) : M (nat * nat * str) :=
   | None => fail IndexErr
   | Some mrid =>
       do m <- lift (related_part mrid (pt_rels pp)) ;;
+      do _ <- m_class m ct_slide_master ;;
       do mp <- m_part m ;;
       match nth_error (pt_idl mp) l with
       | None => fail IndexErr
-      | Some rid => do lp <- lift (related_part rid (pt_rels mp)) ;; ret (m, lp, rid)
+      | Some rid => do lp <- lift (related_part rid (pt_rels mp)) ;;
+                    do _ <- m_class lp ct_slide_layout ;; ret (m, lp, rid)
       end
   end.
 
@@ -562,7 +577,7 @@ Definition m_replace_data (i j : nat) : M bool :=
   do x <- m_part sp ;;
   match nth_error (chart_parts x) j with
   | None => ret false
-  | Some cp => do _ <- m_update_xlsx cp ;; ret true
+  | Some cp => do _ <- m_class cp ct_chart ;; do _ <- m_update_xlsx cp ;; ret true
   end.
 
 Definition ole_spec (k : olek) : (str * str) * str * str :=
@@ -607,7 +622,8 @@ Definition m_notes_master : M nat :=
 Definition m_notes (sp : nat) : M nat :=
   do x <- m_part sp ;;
   match part_with_reltype rt_notes_slide (pt_rels x) with
-  | Ok p => do _ <- (if pt_notes x then ret tt else m_setp sp (with_notes x true)) ;; ret p
+  | Ok p => do _ <- m_class p ct_notes_slide ;;
+            do _ <- (if pt_notes x then ret tt else m_setp sp (with_notes x true)) ;; ret p
   | Err e =>
       if pt_notes x then fail e     (* evaluated before, relationship gone since: not reachable by the operations *)
       else match e with
@@ -619,6 +635,7 @@ Definition m_notes (sp : nat) : M nat :=
           do np <- m_new (with_slots (new_part nname ct_notes_slide 0) [(None, None)]) ;;
           do _ <- m_relate np rt_notes_master (TInt nm) ;;
           do _ <- m_relate np rt_slide (TInt sp) ;;
+          do _ <- m_class nm ct_notes_master ;;     (* clone_master_placeholders reads notes_master_part.notes_master *)
           do _ <- m_relate sp rt_notes_slide (TInt np) ;;
           do x' <- m_part sp ;;
           do _ <- m_setp sp (with_notes x' true) ;; ret np
@@ -668,8 +685,8 @@ Definition m_set_jump (p j tp : nat) : M unit :=
   do rid <- m_relate p rt_slide (TInt tp) ;;
   m_fill_slot p WClick j rid.
 
-(** _Relationship.target_ref through its lazyproperty *)
-Definition m_target_ref (p : nat) (rid : str) : M str :=
+(** _Relationship.target_ref (through its cache when [lz]) *)
+Definition m_target_ref (lz : bool) (p : nat) (rid : str) : M str :=
   do x <- m_part p ;;
   match find_rel rid (pt_rels x) with
   | None => fail KeyErr
@@ -680,6 +697,7 @@ Definition m_target_ref (p : nat) (rid : str) : M str :=
       | TInt q, None =>
           do s <- getS ;;
           let c := Opc.rel_ref (name_of (st_parts s) q) (pt_base x) in
+          if negb lz then ret c else
           do _ <- m_setp p (with_rels x (map (fun r' => if str_eqb (rr_id r') rid
                                                           then mkR (rr_id r') (rr_type r') (rr_tgt r') (Some c)
                                                           else r') (pt_rels x))) ;;
@@ -687,21 +705,22 @@ Definition m_target_ref (p : nat) (rid : str) : M str :=
       end
   end.
 
-Definition m_read_link (p : nat) (w : which) (j : nat) : M (option (option str)) :=
+Definition m_read_link (lz : bool) (p : nat) (w : which) (j : nat) : M (option (option str)) :=
   do x <- m_part p ;;
   match nth_error (pt_slots x) j with
   | None => ret None
   | Some cr =>
       match slot_get w cr with
       | None => ret (Some None)
-      | Some rid => do u <- m_target_ref p rid ;; ret (Some (Some u))
+      | Some rid => do u <- m_target_ref lz p rid ;; ret (Some (Some u))
       end
   end.
 
 (** ** SlideLayouts.remove *)
 
 Definition m_layout_of (sp : nat) : M nat :=
-  do x <- m_part sp ;; lift (part_with_reltype rt_slide_layout (pt_rels x)).
+  do x <- m_part sp ;; do l <- lift (part_with_reltype rt_slide_layout (pt_rels x)) ;;
+  do _ <- m_class l ct_slide_layout ;; ret l.
 
 Fixpoint m_used (lp : nat) (slides : list str) : M bool :=
   match slides with
@@ -710,6 +729,7 @@ Fixpoint m_used (lp : nat) (slides : list str) : M bool :=
       do s <- getS ;;
       do pp <- m_part (st_pres s) ;;
       do sp <- lift (related_part rid (pt_rels pp)) ;;
+      do _ <- m_class sp ct_slide ;;
       do l <- m_layout_of sp ;;
       do rest <- m_used lp r ;;        (* the tuple is built before it is tested *)
       ret (Nat.eqb l lp || rest)
@@ -728,6 +748,7 @@ Definition m_remove_layout (l : nat) : M unit :=
   do _ <- m_setp m (with_idl mp (remove_nth_str l (pt_idl mp))) ;;
   do lpart <- m_part lp ;;
   do m' <- lift (part_with_reltype rt_slide_master (pt_rels lpart)) ;;
+  do _ <- m_class m' ct_slide_master ;;
   do mp' <- m_part m' ;;
   do mp'' <- lift (drop_rel mp' rid) ;;
   m_setp m' mp''.
@@ -781,8 +802,9 @@ Definition mapi {A B} (f : nat -> A -> B) (l : list A) : list B := mapi_aux f O 
 Definition memn (n : nat) (l : list nat) : bool := existsb (Nat.eqb n) l.
 
 (** OpcPackage.save: every relationship of the package and of every part that is written
-    has its target_ref evaluated (and thereby fixed) *)
-Definition save_state (s : state) : state :=
+    has its target_ref evaluated (and, under the former lazyproperty, thereby fixed) *)
+Definition save_state (lz : bool) (s : state) : state :=
+  if negb lz then s else
   let pids := iter_pids s in
   let parts := st_parts s in
   mkS (mapi (fun i x => if memn i pids
@@ -801,12 +823,6 @@ Definition save_phys (T : tables) (s : state) : physpkg :=
                              | None => []
                              end) pids).
 
-(** the same writer without the lazyproperty: target_ref computed from the current name *)
-Definition clear_ref (r : relr) : relr := mkR (rr_id r) (rr_type r) (rr_tgt r) None.
-Definition uncached (s : state) : state :=
-  mkS (map (fun x => with_rels x (map clear_ref (pt_rels x))) (st_parts s))
-      (map clear_ref (st_prels s)) (st_pres s) (st_mrid s) (st_slides s) (st_nm s) (st_core s).
-
 (** ** one operation *)
 
 Definition fin {A} (f : A -> outcome) (m : M A) (s : state) : state * outcome :=
@@ -814,7 +830,7 @@ Definition fin {A} (f : A -> outcome) (m : M A) (s : state) : state * outcome :=
   (s1, match r with Ok a => f a | Err e => Refused e end).
 Definition done (_ : unit) : outcome := Done.
 
-Definition step (T : tables) (s : state) (o : op) : state * outcome :=
+Definition step (lz : bool) (T : tables) (s : state) (o : op) : state * outcome :=
   match o with
   | AccessSlides => fin done m_access_slides s
   | AddSlide l => fin done (m_add_slide l) s
@@ -849,7 +865,7 @@ Definition step (T : tables) (s : state) (o : op) : state * outcome :=
            if h then do _ <- m_clear_slot sp w j ;; ret true else ret false) s
   | ReadLink w i j =>
       fin (fun r : option (option str) => match r with Some v => Read v | None => NA end)
-          (do sp <- m_slide i ;; m_read_link sp w j) s
+          (do sp <- m_slide i ;; m_read_link lz sp w j) s
   | SetJump i j k =>
       fin (fun ok : bool => if ok then Done else NA)
           (do sp <- m_slide i ;; do h <- m_has_slot sp j ;;
@@ -868,15 +884,11 @@ Definition step (T : tables) (s : state) (o : op) : state * outcome :=
            if h then do _ <- m_clear_slot np WClick 0 ;; ret true else ret false) s
   | RemoveLayout l => fin done (m_remove_layout l) s
   | AccessCoreProps => fin done m_core s
-  | Save => let s1 := save_state s in (s1, Saved (save_phys T s1))
+  | Save => let s1 := save_state lz s in (s1, Saved (save_phys T s1))
   end.
 
-Definition run (T : tables) (s : state) (ops : list op) : state := fold_left (fun st o => fst (step T st o)) ops s.
-
-(** the repaired semantics: target_ref is an ordinary property *)
-Definition step_nc (T : tables) (s : state) (o : op) : state * outcome :=
-  let '(s1, r) := step T (uncached s) o in (uncached s1, match r with Saved _ => Saved (save_phys T (uncached s1)) | x => x end).
-Definition run_nc (T : tables) (s : state) (ops : list op) : state := fold_left (fun st o => fst (step_nc T st o)) ops s.
+Definition run (lz : bool) (T : tables) (s : state) (ops : list op) : state :=
+  fold_left (fun st o => fst (step lz T st o)) ops s.
 
 (* ------------------------------------------------------------------------------ *)
 (** * Closed: the property's statement about a saved package, decidable form *)
@@ -910,9 +922,22 @@ Definition target_ok (ph : physpkg) (src : str) (mem_rels : list relr) (r : Opc.
 
 Definition c_names (ph : physpkg) : bool := Opc.nodupb (member_names ph).
 
+(** content type the item offers for a part name: the Override carrying exactly that name,
+    else the Default of its (lower-cased) extension.  Override names are compared exactly:
+    part names that differ only in letter case are outside this model (the independent
+    oracle of the check compares them the OPC way). *)
+Definition ct_resolve (c : Opc.cts) (name : str) : res str :=
+  match Opc.lookup name (snd c) with
+  | Some t => Ok t
+  | None => match Opc.lookup (Opc.lower (ext name)) (fst c) with
+            | Some t => Ok t
+            | None => Err KeyErr
+            end
+  end.
+
 Definition c_types (s : state) (ph : physpkg) : bool :=
   Opc.nodupb (map fst (fst (ph_cts ph))) && Opc.nodupb (map fst (snd (ph_cts ph)))
-  && forallb (fun m => match getp s (pm_pid m), Opc.ct_lookup (ph_cts ph) (pm_name m) with
+  && forallb (fun m => match getp s (pm_pid m), ct_resolve (ph_cts ph) (pm_name m) with
                        | Some x, Ok ct => str_eqb ct (pt_ct x)
                        | _, _ => false
                        end) (ph_members ph).
@@ -950,3 +975,115 @@ Definition closedb (s : state) (ph : physpkg) : bool :=
   c_names ph && c_types s ph && c_targets s ph && c_refs s ph && c_main s ph.
 
 Definition Closed (s : state) (ph : physpkg) : Prop := closedb s ph = true.
+
+(* ------------------------------------------------------------------------------ *)
+(** * Vocabulary of the theorems (props/C02.v) *)
+
+(** relationship types whose rIds the hyperlink / slide-jump setters hand out and drop *)
+Definition link_types : list str := [rt_hyperlink; rt_slide].
+
+Definition s_slides_dir : str := Eval vm_compute in asc "/ppt/slides".
+Definition s_bin : str := Eval vm_compute in asc "bin".
+
+(** content types of the parts the operations create *)
+Definition new_part_cts : list str :=
+  [ct_slide; ct_notes_slide; ct_notes_master; ct_theme; ct_chart; ct_xlsx; ct_docx; ct_pptx; ct_ole; ct_core].
+
+(** content types PartFactory maps to a part class with behaviour of its own *)
+Definition class_cts : list str :=
+  [ct_slide; ct_notes_slide; ct_notes_master; ct_chart; ct_slide_master; ct_slide_layout].
+
+Definition slot_rids (x : part) : list str := map snd (slot_refs (pt_slots x)).
+
+(** what holds of every part object, reached or not; [n] is the number of part objects *)
+Record good_part (n : nat) (x : part) : Prop := mkGood {
+  gp_name : Opc.part_name (pt_name x);
+  gp_base : pt_base x = baseURI (pt_name x);
+  gp_tgts : forall q, In q (int_targets (pt_rels x)) -> q < n;
+  gp_keys : NoDup (map rr_id (pt_rels x));
+  gp_nocache : forall r, In r (pt_rels x) -> rr_ref r = None;
+  (* every r: attribute names a relationship of the part *)
+  gp_refs : forall kr, In kr (all_refs x) -> In (snd kr) (map rr_id (pt_rels x));
+  (* attributes other than r:id never name a hyperlink or slide-jump relationship ... *)
+  gp_embed : forall k r x', In (k, r) (all_refs x) -> k <> k_id ->
+             find_rel r (pt_rels x) = Some x' -> ~ In (rr_type x') link_types;
+  (* ... and the link slots name nothing else *)
+  gp_slots : forall r, In r (slot_rids x) ->
+             exists x', find_rel r (pt_rels x) = Some x' /\ In (rr_type x') link_types;
+  gp_slide_idl : (pt_ct x = ct_slide \/ pt_ct x = ct_notes_slide) -> pt_idl x = [];
+  gp_master : pt_ct x = ct_slide_master ->
+              NoDup (pt_idl x) /\
+              forall kr, In kr (pt_refs x ++ slot_refs (pt_slots x)) -> ~ In (snd kr) (pt_idl x)
+}.
+
+Definition reach_part (s : state) (p : nat) (x : part) : Prop := In p (iter_pids s) /\ getp s p = Some x.
+
+(** no two reached parts share an extension while carrying different content types that
+    the default table both lists for it (the side condition of C01_payload_type) *)
+Definition clash_free (T : tables) (s : state) : Prop :=
+  forall p q x y, reach_part s p x -> reach_part s q y ->
+    Opc.lower (ext (pt_name x)) = Opc.lower (ext (pt_name y)) ->
+    Opc.in_table (t_def T) (Opc.lower (ext (pt_name x))) (pt_ct x) = true ->
+    Opc.in_table (t_def T) (Opc.lower (ext (pt_name y))) (pt_ct y) = true -> pt_ct x = pt_ct y.
+
+(** the slide id list resolves to distinct parts; they are exactly the reached parts in the
+    slides directory; once prs.slides has been evaluated they are called slide1..n in order *)
+Definition slides_ok (s : state) : Prop :=
+  exists pp tg, getp s (st_pres s) = Some pp /\
+    Forall2 (fun rid q => related_part rid (pt_rels pp) = Ok q) (pt_idl pp) tg /\
+    NoDup tg /\
+    (forall q, In q tg -> baseURI (name_of (st_parts s) q) = s_slides_dir) /\
+    (forall p x, reach_part s p x -> baseURI (pt_name x) = s_slides_dir -> In p tg) /\
+    (st_slides s = true -> forall j q, nth_error tg j = Some q ->
+                                       name_of (st_parts s) q = Ids.slide_name (N.of_nat j + 1)%N).
+
+(** a layout listed by a slide master names that master as its own *)
+Definition master_ok (s : state) : Prop :=
+  forall m mx rid lp lx m', getp s m = Some mx -> pt_ct mx = ct_slide_master ->
+    In rid (pt_idl mx) -> related_part rid (pt_rels mx) = Ok lp -> getp s lp = Some lx ->
+    part_with_reltype rt_slide_master (pt_rels lx) = Ok m' -> m' = m.
+
+(** the two fixed part names are taken only by the parts the lazy creators look for *)
+Definition fixed_ok (s : state) : Prop :=
+  (forall pp, getp s (st_pres s) = Some pp -> In n_notes_master (iter_names s) ->
+              filter (fun r => str_eqb (rr_type r) rt_notes_master) (pt_rels pp) <> []) /\
+  (In n_core (iter_names s) -> filter (fun r => str_eqb (rr_type r) rt_core) (st_prels s) <> []) /\
+  (forall pp p, getp s (st_pres s) = Some pp -> st_nm s = Some p ->
+                part_with_reltype rt_notes_master (pt_rels pp) = Ok p).
+
+Record Inv (T : tables) (s : state) : Prop := mkInv {
+  iv_parts : forall p x, getp s p = Some x -> good_part (length (st_parts s)) x;
+  iv_ptgts : forall q, In q (int_targets (st_prels s)) -> q < length (st_parts s);
+  iv_pkeys : NoDup (map rr_id (st_prels s));
+  iv_pnocache : forall r, In r (st_prels s) -> rr_ref r = None;
+  iv_names : NoDup (iter_names s);
+  iv_main : exists r, filter (fun r => str_eqb (rr_type r) rt_office_document) (st_prels s) = [r]
+                      /\ rr_tgt r = TInt (st_pres s);
+  iv_pres : exists pp, getp s (st_pres s) = Some pp /\ ~ In (pt_ct pp) class_cts;
+  iv_clash : clash_free T s;
+  iv_slides : slides_ok s;
+  iv_master : master_ok s;
+  iv_fixed : fixed_ok s
+}.
+
+(** the tables of the writer: lower-case initial defaults, each once; an extension has one
+    listed content type, except bin; no part the operations create is typed like a bin default *)
+Record tables_ok (T : tables) : Prop := mkTok {
+  tk_env : Opc.env_ok (tenv T);
+  tk_fun : forall e c1 c2, Opc.in_table (t_def T) e c1 = true -> Opc.in_table (t_def T) e c2 = true ->
+                           c1 <> c2 -> e = s_bin;
+  tk_bin : forall c, In c new_part_cts -> Opc.in_table (t_def T) s_bin c = false
+}.
+
+(** a file handed to the API: its extension has no dot and no slash, its content type is not
+    one the default table lists for bin *)
+Definition ext_ok (e : str) : bool := forallb (fun c => negb (is_dot c) && not_slash c) e.
+Definition blob_ok (T : tables) (b : blobd) : Prop :=
+  ext_ok (b_ext b) = true /\ Opc.in_table (t_def T) s_bin (b_ct b) = false /\ ~ In (b_ct b) class_cts.
+
+Definition op_ok (T : tables) (o : op) : Prop :=
+  match o with
+  | AddPicture _ b | InsertPicture _ b => blob_ok T b
+  | AddMovie _ v po => blob_ok T v /\ match po with PImg b => blob_ok T b | _ => True end
+  | _ => True
+  end.
